@@ -20,12 +20,16 @@
      kind 1  one-shot interface derived from read_until:  cfg = L [B sep; A limit; A keep_end; A decmode; A conv]
      kind 2  one-shot interface derived from read_exactly: cfg = L [A size; A decmode; A conv]
      kind 3  StringLineSerializer one-shot codec (Frame/LineOneShot.v): cfg = L [B sep; A keep_end; A ascii]
+     kind 4  NamedTupleStructSerializer with one "<n>s" field (Frame/StructStrOneShot.v): cfg = L [A n; A strip]
+     kind 0 arrivals may carry a 4th field L [B pkt]: dgram is the serialization of pkt, and the model then answers pkt
+             (round-trip hypothesis of dgram_send_roundtrip, validated by execution) instead of the tabulated result.
+     A crash (RuntimeError) of the receive path is never an acceptable outcome: the model prints it as L [A (-2)].
              op  = L [A 0; B dgram] | L [A 1; B payload] | L [A 3]
              decmode 0 identity | 1 ascii (DeserializeError on a byte >= 128); conv 1: converter rejecting "!..." packets
    output = L [per op: L []  (arrive) | L [L [A 4; B dgram]] (send: what the peer receives)
                      | L [L [A 0; B pkt]] | L [L [A 1; A errcode]] | L [L [A 2]] | L [L [A 3]] (recv; 3 = nothing queued)
                      | L [L [A 5]] (cancelled, nothing consumed) | L [L [A 6; A 0]] (the socket error, at its position)] *)
-From EN Require Import Lib.Bytes Lib.Sx Frame.Framer Frame.ReadUntil Frame.OneShot Frame.LineOneShot IO.DgramEndpoint Gen.ParamsC05.
+From EN Require Import Lib.Bytes Lib.Sx Frame.Framer Frame.ReadUntil Frame.OneShot Frame.LineOneShot Frame.StructStrOneShot IO.DgramEndpoint Gen.ParamsC05.
 
 Definition err_code (e : err) : Z :=
   match e with ELimit => 0 | EDecode => 1 | EConvert => 2 | EMissing => 3 | EExtra => 4 end%Z.
@@ -37,7 +41,7 @@ Definition rres_sx (r : rres bytes) : sx :=
   match r with
   | RPacket q => L [A 0; B q]
   | RParseError e => L [A 1; A (err_code e)]
-  | RCrashed => L [A 2]
+  | RCrashed => L [A (-2)]
   | RNoData => L [A 3]
   | RCancelled => L [A 5]
   | RSockError => L [A 6; A 0]
@@ -55,6 +59,7 @@ Definition res_of (r : sx) : ores bytes :=
 Fixpoint table_of (bufsize : N) (ops : list sx) : list (bytes * ores bytes) :=
   match ops with
   | [] => []
+  | L [A 0%Z; B d; _; L [B p]] :: r => (d, OOk p) :: table_of bufsize r
   | L [A 8%Z; A n; B tok; rw; rt] :: r =>
       (tok, res_of (if (Z.to_N n <=? bufsize)%N then rw else rt)) :: table_of bufsize r
   | L [A 0%Z; B d; L [A 0%Z; B p]] :: r => (d, OOk p) :: table_of bufsize r
@@ -158,6 +163,8 @@ Definition run (i : sx) : sx :=
           L (go (fun p => oneshot_serialize (exact_parts p)) (oneshot_deserialize F) (mk_conv cv) bs de t0 ops)
       | 3%Z, L [B sep; A ke; A asc] =>
           L (go line_serialize (line_deserialize sep (Z.eqb ke 1) (Z.eqb asc 1)) (fun p => Some p) bs de t0 ops)
+      | 4%Z, L [A n; A st] =>
+          L (go (struct_s_serialize (Z.to_nat n)) (struct_s_deserialize (Z.to_nat n) (Z.eqb st 1)) (fun p => Some p) bs de t0 ops)
       | _, _ => bad_input
       end
   | _ => bad_input
